@@ -268,22 +268,8 @@ theorem collect1Core_ty' (src : Dataset) (hsrc : src.TY) (out out' : List Var) (
           have hms : ∀ m ∈ ms, m.TY := hout _ (findVar_mem ho)
           exact map_replace_all out _ _ hout (show (Var.struct _ _).TY' src from addMember_ty hms hbty)
         · rename_i a ms ho
-          have hg : a.TY ∧ ∀ m ∈ ms, m.TY := hout _ (findVar_mem ho)
           split at h
-          · rename_i b
-            split at h
-            · split at h
-              · simp only [Except.ok.injEq] at h; subst h; exact hout
-              · rename_i m0 rest
-                simp only [Except.ok.injEq] at h; subst h
-                refine map_replace_all out _ _ hout (show (Var.grid _ _ _).TY' src from ⟨hg.2 m0 (by simp), ?_⟩)
-                intro x hx
-                simp only [List.mem_append, List.mem_singleton] at hx
-                rcases hx with hx | rfl
-                · exact hg.2 x (by simp [hx])
-                · exact hbty
-            · simp only [Except.ok.injEq] at h; subst h
-              exact map_replace_all out _ _ hout (show (Var.grid _ _ _).TY' src from ⟨hg.1, setBase_ty hg.2 hbty⟩)
+          · simp only [Except.ok.injEq] at h; subst h; exact hout
           · simp at h
         · simp at h
   · -- three parts: a member of a structure nested in a structure
